@@ -933,6 +933,54 @@ def run_world_check(ctx, cfg):
             ctx.violation(small, "%s fails on the implementation (%s, %s): %s" % (ctx.prop, kind, name, (r2 or (0, msg))[1][:500]))
             reported += 1
     if not reported and failures["tie"]:
+        # stage S: the correspondence broke but no explored history violated the property. Search around the divergences:
+        # continue each shrunk diverging history with random suffixes of CHECKED operations only (always inside the contract)
+        # and let the spec oracle judge the implementation.
+        searched = 0
+        for name, ops, msg in failures["tie"][:3]:
+            small = shrink(ops, lambda t: (lambda x: x is not None and x[0] == "tie")(sess.check_file(t)), budget=40)
+            base = [l for l in op_lines(small) if l not in ("teardown",)]
+            n_ord = sum(1 for l in base if l.split()[0] in ("create", "clone") or l.startswith("build new") or (l.split()[0][0] == "t" and len(l.split()) > 1 and l.split()[1] == "create"))
+            depth = 0
+            for l in base:
+                w = l.split()
+                depth += (w[0] == "lock") - (w[0] == "unlock" and depth > 0)
+            base += ["unlock"] * depth
+            for j in range(40):
+                suf = []
+                k = n_ord
+                for _ in range(rng.randint(4, 24)):
+                    c = rng.random()
+                    if c < 0.4:
+                        suf.append("create %s" % (",".join(sorted(rng.sample("ABFH", rng.randint(0, 2)))) or "-"))
+                        k += 1
+                    elif c < 0.6 and k:
+                        suf.append("destroynow %d" % rng.randrange(k))
+                    elif c < 0.7 and k:
+                        suf.append("destroy %d" % rng.randrange(k))
+                    elif c < 0.75:
+                        suf.append("update")
+                    elif c < 0.85 and k:
+                        suf.append("remove %d %s" % (rng.randrange(k), rng.choice("ABFH")))
+                    elif c < 0.9 and k:
+                        suf.append("clone %d" % rng.randrange(k))
+                        k += 1
+                    else:
+                        suf.append("dump")
+                cand = "\n".join(base + suf + ["dump", "teardown"]) + "\n"
+                searched += 1
+                r = sess.check_file(cand)
+                if r and r[0] in ("oracle", "abort"):
+                    small2 = shrink(cand, lambda t, kk=r[0]: (lambda x: x is not None and x[0] == kk)(sess.check_file(t)), budget=60)
+                    r2 = sess.check_file(small2)
+                    ctx.violation(small2, "%s fails on the implementation (%s; found by the search around the broken correspondence of %s): %s"
+                                  % (ctx.prop, r[0], name, (r2 or r)[1][:500]))
+                    reported += 1
+                    break
+            if reported:
+                break
+        ctx.cov(search_after_tie_cases=searched)
+    if not reported and failures["tie"]:
         name, ops, msg = failures["tie"][0]
         small = shrink(ops, lambda t: (lambda x: x is not None and x[0] == "tie")(sess.check_file(t)), budget=60)
         r2 = sess.check_file(small)
